@@ -6,9 +6,25 @@
 (*                                                                         *)
 (* Abstraction: a 1-D chain of N pixels; pixel N-1 is a labelled maximum   *)
 (* (l = 0, lout = 1); every other pixel x points to x+1 (l[x] = 1 stands   *)
-(* for "offset +1").  Thread t owns the index range [Lo(t), Hi(t)) exactly *)
-(* as the code computes it (dim0*dim1*tid/nt).  lout of the unlabelled     *)
-(* pixels starts as POISON: any previous content of the output buffer.     *)
+(* for "offset +1").  lout of the unlabelled pixels starts as POISON: any  *)
+(* previous content of the output buffer.                                  *)
+(*                                                                         *)
+(* Two team sizes (OpenMP configurations):                                 *)
+(*   NT    the team size REQUESTED = omp_get_max_threads() (OMP_NUM_THREADS *)
+(*         or cimaged11_omp_set_num_threads); NT processes exist           *)
+(*   team  (variable, chosen in Init from TEAMS, a subset of 1..NT) the     *)
+(*         team size the runtime DELIVERS = omp_get_num_threads() inside    *)
+(*         the region: threads team..NT-1 are not started (label Team).     *)
+(*         TEAMS = {NT}: the ordinary configuration; TEAMS = 1..NT: the     *)
+(*         runtime may hand out fewer threads than asked for               *)
+(*         (OMP_THREAD_LIMIT, OMP_DYNAMIC=true, a busy machine).            *)
+(* BLOCKS = "team": thread t of the team owns [Lo(t), Hi(t)) cut with the   *)
+(*   DELIVERED size, exactly as the code computes it                        *)
+(*   (dim0*dim1*tid/nt with nt = omp_get_num_threads() inside the region).  *)
+(* BLOCKS = "max": variant that cuts the blocks with the REQUESTED size     *)
+(*   (omp_get_max_threads() read in front of the region): the blocks of the *)
+(*   threads that were not delivered are never walked.  TLC: RangesTile and *)
+(*   Correct violated as soon as team < NT (vacuity configuration).         *)
 (*                                                                         *)
 (* FIXED = FALSE : the pinned code.  In the path relabel the flag l[q] is  *)
 (*   cleared BEFORE the label lout[q] is written, and l[q] is read twice   *)
@@ -19,26 +35,39 @@
 (*   shows the second read is harmless once the ordering is repaired.      *)
 (*                                                                         *)
 (* Property  Correct: when all threads are done every pixel carries the    *)
-(* label of the maximum (the sequential result), for every interleaving.   *)
-(* RangesTile: the ranges [Lo(t), Hi(t)) tile 0..N-1 - every pixel is      *)
-(* visited by exactly one thread - for any NT, also NT > N where some      *)
-(* threads own an empty range (configurations N=3 NT=5, N=4 NT=6).  The    *)
-(* hooks build logs each thread's lo / hi; the harness requires one log    *)
-(* per requested thread and notes whether they equal Lo / Hi.              *)
+(* label of the maximum (the sequential result), for every interleaving    *)
+(* and every delivered team size.                                          *)
+(* RangesTile (state invariant, over requested AND delivered size): the    *)
+(* ranges [Lo(t), Hi(t)) of the DELIVERED threads t < team tile 0..N-1 -    *)
+(* every pixel is visited by exactly one thread that runs - for any NT and  *)
+(* any team <= NT, also team > N where some threads own an empty range      *)
+(* (configurations N=3 NT=5, N=4 NT=6).  The hooks build logs each running  *)
+(* thread's tid / divisor / lo / hi; the harness requires, in every OpenMP  *)
+(* environment, that the logged ranges tile the image, that the divisor is  *)
+(* the number of threads that logged, and (ordinary configuration) one log  *)
+(* per requested thread.                                                    *)
 (* Memory model: sequential consistency (the repair adds flushes).         *)
 (***************************************************************************)
 EXTENDS Integers, Sequences, TLC
-CONSTANTS N, NT, FIXED, REREAD, POISON
-Lo(t) == (N * t) \div NT
-Hi(t) == (N * (t + 1)) \div NT
+CONSTANTS N, NT, FIXED, REREAD, POISON, TEAMS, BLOCKS
+ASSUME TEAMS \subseteq 1..NT /\ TEAMS # {} /\ BLOCKS \in {"team", "max"}
 Threads == 0..(NT - 1)
 
 (* --algorithm walk
-variables l = [x \in 0..(N - 1) |-> IF x = N - 1 THEN 0 ELSE 1],
+variables team \in TEAMS,
+          l = [x \in 0..(N - 1) |-> IF x = N - 1 THEN 0 ELSE 1],
           lout = [x \in 0..(N - 1) |-> IF x = N - 1 THEN 1 ELSE POISON];
+define
+  Div == IF BLOCKS = "team" THEN team ELSE NT       \* the `nt` of lo = dim0*dim1*tid/nt
+  Lo(t) == (N * t) \div Div
+  Hi(t) == (N * (t + 1)) \div Div
+end define;
 process th \in Threads
-variables i = Lo(self), q = 0, k = 0, lq = 0;
+variables i = 0, q = 0, k = 0, lq = 0;
 begin
+ Team: if self >= team then goto Done;      \* not a member of the delivered team: never runs
+       else i := Lo(self);
+       end if;
  Loop: while i < Hi(self) do
    T0:  lq := l[i];                         \* if (l[i] == 0) continue;
         if lq = 0 then
@@ -77,28 +106,44 @@ begin
  end while;
 end process
 end algorithm *)
-\* BEGIN TRANSLATION (chksum(pcal) = "2cf42d8b" /\ chksum(tla) = "5bb48843")
-VARIABLES pc, l, lout, i, q, k, lq
+\* BEGIN TRANSLATION
+VARIABLES pc, team, l, lout
 
-vars == << pc, l, lout, i, q, k, lq >>
+(* define statement *)
+Div == IF BLOCKS = "team" THEN team ELSE NT
+Lo(t) == (N * t) \div Div
+Hi(t) == (N * (t + 1)) \div Div
+
+VARIABLES i, q, k, lq
+
+vars == << pc, team, l, lout, i, q, k, lq >>
 
 ProcSet == (Threads)
 
 Init == (* Global variables *)
+        /\ team \in TEAMS
         /\ l = [x \in 0..(N - 1) |-> IF x = N - 1 THEN 0 ELSE 1]
         /\ lout = [x \in 0..(N - 1) |-> IF x = N - 1 THEN 1 ELSE POISON]
         (* Process th *)
-        /\ i = [self \in Threads |-> Lo(self)]
+        /\ i = [self \in Threads |-> 0]
         /\ q = [self \in Threads |-> 0]
         /\ k = [self \in Threads |-> 0]
         /\ lq = [self \in Threads |-> 0]
-        /\ pc = [self \in ProcSet |-> "Loop"]
+        /\ pc = [self \in ProcSet |-> "Team"]
+
+Team(self) == /\ pc[self] = "Team"
+              /\ IF self >= team
+                    THEN /\ pc' = [pc EXCEPT ![self] = "Done"]
+                         /\ i' = i
+                    ELSE /\ i' = [i EXCEPT ![self] = Lo(self)]
+                         /\ pc' = [pc EXCEPT ![self] = "Loop"]
+              /\ UNCHANGED << team, l, lout, q, k, lq >>
 
 Loop(self) == /\ pc[self] = "Loop"
               /\ IF i[self] < Hi(self)
                     THEN /\ pc' = [pc EXCEPT ![self] = "T0"]
                     ELSE /\ pc' = [pc EXCEPT ![self] = "Done"]
-              /\ UNCHANGED << l, lout, i, q, k, lq >>
+              /\ UNCHANGED << team, l, lout, i, q, k, lq >>
 
 T0(self) == /\ pc[self] = "T0"
             /\ lq' = [lq EXCEPT ![self] = l[i[self]]]
@@ -107,20 +152,20 @@ T0(self) == /\ pc[self] = "T0"
                        /\ pc' = [pc EXCEPT ![self] = "Loop"]
                   ELSE /\ pc' = [pc EXCEPT ![self] = "T1"]
                        /\ i' = i
-            /\ UNCHANGED << l, lout, q, k >>
+            /\ UNCHANGED << team, l, lout, q, k >>
 
 T1(self) == /\ pc[self] = "T1"
             /\ k' = [k EXCEPT ![self] = 0]
             /\ q' = [q EXCEPT ![self] = i[self] + lq[self]]
             /\ pc' = [pc EXCEPT ![self] = "W1"]
-            /\ UNCHANGED << l, lout, i, lq >>
+            /\ UNCHANGED << team, l, lout, i, lq >>
 
 W1(self) == /\ pc[self] = "W1"
             /\ lq' = [lq EXCEPT ![self] = l[q[self]]]
             /\ IF lq'[self] # 0
                   THEN /\ pc' = [pc EXCEPT ![self] = "W2"]
                   ELSE /\ pc' = [pc EXCEPT ![self] = "A1"]
-            /\ UNCHANGED << l, lout, i, q, k >>
+            /\ UNCHANGED << team, l, lout, i, q, k >>
 
 W2(self) == /\ pc[self] = "W2"
             /\ IF REREAD
@@ -128,19 +173,19 @@ W2(self) == /\ pc[self] = "W2"
                   ELSE /\ q' = [q EXCEPT ![self] = q[self] + lq[self]]
             /\ k' = [k EXCEPT ![self] = k[self] + 1]
             /\ pc' = [pc EXCEPT ![self] = "W1"]
-            /\ UNCHANGED << l, lout, i, lq >>
+            /\ UNCHANGED << team, l, lout, i, lq >>
 
 A1(self) == /\ pc[self] = "A1"
             /\ lout' = [lout EXCEPT ![i[self]] = lout[q[self]]]
             /\ IF k[self] > 0
                   THEN /\ pc' = [pc EXCEPT ![self] = "R0"]
                   ELSE /\ pc' = [pc EXCEPT ![self] = "Z"]
-            /\ UNCHANGED << l, i, q, k, lq >>
+            /\ UNCHANGED << team, l, i, q, k, lq >>
 
 R0(self) == /\ pc[self] = "R0"
             /\ q' = [q EXCEPT ![self] = i[self] + l[i[self]]]
             /\ pc' = [pc EXCEPT ![self] = "R1"]
-            /\ UNCHANGED << l, lout, i, k, lq >>
+            /\ UNCHANGED << team, l, lout, i, k, lq >>
 
 R1(self) == /\ pc[self] = "R1"
             /\ lq' = [lq EXCEPT ![self] = l[q[self]]]
@@ -151,42 +196,42 @@ R1(self) == /\ pc[self] = "R1"
                                         ELSE /\ pc' = [pc EXCEPT ![self] = "R2"]
                              ELSE /\ pc' = [pc EXCEPT ![self] = "R4"]
                   ELSE /\ pc' = [pc EXCEPT ![self] = "Z"]
-            /\ UNCHANGED << l, lout, i, q, k >>
+            /\ UNCHANGED << team, l, lout, i, q, k >>
 
 R4(self) == /\ pc[self] = "R4"
             /\ q' = [q EXCEPT ![self] = q[self] + l[q[self]]]
             /\ pc' = [pc EXCEPT ![self] = "R1"]
-            /\ UNCHANGED << l, lout, i, k, lq >>
+            /\ UNCHANGED << team, l, lout, i, k, lq >>
 
 R2f(self) == /\ pc[self] = "R2f"
              /\ lout' = [lout EXCEPT ![q[self]] = lout[i[self]]]
              /\ pc' = [pc EXCEPT ![self] = "R3f"]
-             /\ UNCHANGED << l, i, q, k, lq >>
+             /\ UNCHANGED << team, l, i, q, k, lq >>
 
 R3f(self) == /\ pc[self] = "R3f"
              /\ l' = [l EXCEPT ![q[self]] = 0]
              /\ pc' = [pc EXCEPT ![self] = "R4"]
-             /\ UNCHANGED << lout, i, q, k, lq >>
+             /\ UNCHANGED << team, lout, i, q, k, lq >>
 
 R2(self) == /\ pc[self] = "R2"
             /\ l' = [l EXCEPT ![q[self]] = 0]
             /\ pc' = [pc EXCEPT ![self] = "R3"]
-            /\ UNCHANGED << lout, i, q, k, lq >>
+            /\ UNCHANGED << team, lout, i, q, k, lq >>
 
 R3(self) == /\ pc[self] = "R3"
             /\ lout' = [lout EXCEPT ![q[self]] = lout[i[self]]]
             /\ pc' = [pc EXCEPT ![self] = "R4"]
-            /\ UNCHANGED << l, i, q, k, lq >>
+            /\ UNCHANGED << team, l, i, q, k, lq >>
 
 Z(self) == /\ pc[self] = "Z"
            /\ l' = [l EXCEPT ![i[self]] = 0]
            /\ i' = [i EXCEPT ![self] = i[self] + 1]
            /\ pc' = [pc EXCEPT ![self] = "Loop"]
-           /\ UNCHANGED << lout, q, k, lq >>
+           /\ UNCHANGED << team, lout, q, k, lq >>
 
-th(self) == Loop(self) \/ T0(self) \/ T1(self) \/ W1(self) \/ W2(self)
-               \/ A1(self) \/ R0(self) \/ R1(self) \/ R4(self) \/ R2f(self)
-               \/ R3f(self) \/ R2(self) \/ R3(self) \/ Z(self)
+th(self) == Team(self) \/ Loop(self) \/ T0(self) \/ T1(self) \/ W1(self)
+               \/ W2(self) \/ A1(self) \/ R0(self) \/ R1(self) \/ R4(self)
+               \/ R2f(self) \/ R3f(self) \/ R2(self) \/ R3(self) \/ Z(self)
 
 (* Allow infinite stuttering to prevent deadlock on termination. *)
 Terminating == /\ \A self \in ProcSet: pc[self] = "Done"
@@ -204,7 +249,8 @@ Termination == <>(\A self \in ProcSet: pc[self] = "Done")
 Correct == (\A t \in Threads : pc[t] = "Done") => (\A x \in 0..(N - 1) : lout[x] = 1)
 \* a pixel flagged done always carries its final label (holds only for the repaired ordering)
 FlagImpliesLabel == \A x \in 0..(N - 1) : l[x] = 0 => lout[x] = 1
-\* every pixel belongs to the range of exactly one thread (constant-level: depends on N and NT only)
-RangesTile == \A x \in 0..(N - 1) : \E t \in Threads : /\ Lo(t) <= x /\ x < Hi(t)
-                                                        /\ \A u \in Threads \ {t} : ~(Lo(u) <= x /\ x < Hi(u))
+\* every pixel belongs to the range of exactly one thread OF THE DELIVERED TEAM (the threads that run)
+Running == 0..(team - 1)
+RangesTile == \A x \in 0..(N - 1) : \E t \in Running : /\ Lo(t) <= x /\ x < Hi(t)
+                                                        /\ \A u \in Running \ {t} : ~(Lo(u) <= x /\ x < Hi(u))
 =============================================================================
